@@ -68,6 +68,19 @@ func lower(g *Graph, b *Block, scope string) (entry, exit *Node, exitDefault boo
 				}
 				continue
 			}
+			if len(w) > 2 && w[:2] == "dx" {
+				// the same with a data object whose id differs from its name, next to ANOTHER data object whose id is
+				// that name (ids are unique; data outputs and conditions go by the name)
+				t.Outputs = append(t.Outputs, w+"=DataObject_"+w)
+				known := false
+				for _, o := range g.Objects {
+					known = known || o.Name == w
+				}
+				if !known {
+					g.Objects = append(g.Objects, DataObject{ID: "DataObject_" + w, Name: w}, DataObject{ID: w, Name: "decoy_" + w, Body: `{"w": 0}`})
+				}
+				continue
+			}
 			t.Writes = append(t.Writes, w)
 		}
 		return t, t, false
